@@ -199,6 +199,14 @@ H_ASSIGN_FILL(h_assign_fill_w, ((void)0))
 #define H_ASSIGN_BUF(NAME, KNOWN) void NAME(void) { ARB(s); VF_INPUT(unsigned char, c); VF_INPUT(unsigned char, which); __CPROVER_assume(c <= N); XBUF(char, src, c, N); S *r; \
   if (which == 0) r = s_assign_ptr_n(&s, src, c); else if (which == 1) r = s_assign_range(&s, src, src + c); else if (which == 2) r = s_assign_sv(&s, src, c); else r = s_opassign_sv(&s, src, c); \
   POST(s, sp_splice(sp_empty(), 0, 0, src, c), "assign(s, count) / (first, last) / (string_view), operator=(string_view): exactly the source characters"); VF_ASSERT(r == &s, "assign returns *this"); VF_REACH(); }
+/* self-aliasing source: s.assign(s.data() + k, c) must yield the substring (std::basic_string handles a source inside *this) */
+#define H_ASSIGN_SELF(NAME) void NAME(void) { ARB(s); VF_INPUT(unsigned char, k); VF_INPUT(unsigned char, c); view_t o = view_of(&s); __CPROVER_assume(k <= o.n && c <= o.n - k); \
+  S *r = s_assign_ptr_n(&s, BUF(s) + k, c); view_t e; e.n = c; for (int i = 0; i <= N; ++i) e.a[i] = (i < c && i + k <= N) ? o.a[i + k] : 0; \
+  VF_ASSERT(WF(s) && SZ(s) == c, "assign(data()+k, c) from the string's own storage: wf and size"); for (int i = 0; i < N; ++i) if (i < c) VF_ASSERT(BUF(s)[i] == e.a[i], "assign(data()+k, c): the result is the old substring [k, k+c)"); VF_ASSERT(r == &s, "assign returns *this"); VF_REACH(); }
+/*@GROUP name=assign_self props=C04,C02 kind=K unwind=11 when=VF_N<=7@*/
+H_ASSIGN_SELF(h_assign_self)
+/*@GROUP name=assign_self_m props=C04,C02 kind=K unwind=20 when=7<VF_N<=16@*/
+H_ASSIGN_SELF(h_assign_self_m)
 /*@GROUP name=assign_buf props=C04,C02,C05 kind=K unwind=11 when=VF_N<=7@*/
 H_ASSIGN_BUF(h_assign_buf, ((void)0))
 /*@GROUP name=assign_buf_m props=C04,C02,C05 kind=K unwind=20 when=7<VF_N<=16@*/
